@@ -222,6 +222,12 @@ def simplify_math_iterators(source: str) -> str:
         ast.List(elts={ast.Constant, ast.UnaryOp, ast.BinOp}),
     )
 
+    def closed_form(node: ast.AST, replacement: ast.AST):
+        # The printed form of an expression may use names that only sympy knows: Mod, floor, Piecewise
+        known_names = {name.id for name in core.walk(node, ast.Name)}
+        if all(name.id in known_names for name in core.walk(replacement, ast.Name)):
+            yield node, replacement
+
     for node in core.walk(root, template):
         if node.func.id != "sum":
             continue
@@ -229,7 +235,7 @@ def simplify_math_iterators(source: str) -> str:
         if core.match_template(arg, ast.Call(func=ast.Name(id="range"))):
             if any((node is not arg for node in core.walk(arg, (ast.Attribute, ast.Call)))):
                 continue
-            yield node, _sum_range(arg)
+            yield from closed_form(node, _sum_range(arg))
 
         elif core.match_template(arg, basic_collection_template):
             if any(core.walk(arg, ast.Attribute)):
@@ -239,7 +245,7 @@ def simplify_math_iterators(source: str) -> str:
                 for node in core.walk(arg, ast.Call)
             ):
                 continue
-            yield node, _sum_constants(arg.elts)
+            yield from closed_form(node, _sum_constants(arg.elts))
 
         elif core.match_template(arg, basic_comprehension_template):
             if any(core.walk(arg, (ast.Attribute, ast.Subscript))):
@@ -249,7 +255,7 @@ def simplify_math_iterators(source: str) -> str:
                 for node in core.walk(arg, ast.Call)
             ):
                 continue
-            yield node, _integrate_over(arg.elt, arg.generators)
+            yield from closed_form(node, _integrate_over(arg.elt, arg.generators))
 
 
 @processing.fix
